@@ -94,6 +94,10 @@ def make_namespace(ns=None):
     async def aw(k):
         return k
 
+    async def agen(k):
+        yield k
+        yield k + 1
+
     def plong(k):
         # five lines holding the characters that matter to string formatting of a failure report
         print('row %d: 100%% done' % k)
@@ -112,7 +116,7 @@ def make_namespace(ns=None):
         raise QuietError('u%d' % k)
 
     ns.update({'empt': empt, 'quiet': quiet, 'boomq': boomq, 'eqo': EqObj})
-    ns.update({'plong': plong, 'T': T, 't': t, 'pv': pv, 'boom': boom, 'bad': bad, 'badp': badp, 'ext': ext, 'aw': aw, 'deco': (lambda f: f)})
+    ns.update({'plong': plong, 'T': T, 't': t, 'pv': pv, 'boom': boom, 'bad': bad, 'badp': badp, 'ext': ext, 'aw': aw, 'agen': agen, 'deco': (lambda f: f)})
     return ns, T
 
 
